@@ -200,7 +200,7 @@ def split_sessions(path, n):
             cnt += 1
     if out:
         out.close()
-    return parts
+    return register_parts(parts)
 
 
 def cbrun_descriptor(rec, clause):
